@@ -1,18 +1,146 @@
 NOT_APPLICABLE = []
-_base_note = ("Trusted base: the harness's independent model (harness/src/cbor.rs, schema.rs, spec tables) as a transcription of the specifications; "
-              "rustc/cargo; the dependency versions pinned by the lock file. Held = no violation on the executions observed; inputs outside the "
-              "enumerated domains and samples are not covered.")
-TEXT = {
- "C01": dict(
-   level_text="Reference-model monitor over generated executions: every well-formed request produced from the specification tables (all top-level optional subsets, all nested optional subsets one map at a time, boundary lattice + seeded random values, all 8 feature builds) is decoded by the real crate and its by-name projection must equal the model's normalisation. Exploration, not proof: values are a lattice plus samples.",
-   design_ref="DESIGN.md §4 C01", level_note=_base_note,
-   technique="runtime monitoring: reference-model oracle at the public decode boundary over generated + enumerated workloads (debug UB-checks; Miri in thorough)"),
- "C04": dict(
-   level_text="Robustness monitor: exhaustive enumeration of all inputs of length <= 3 and of length 4 for the parameter-bearing commands, plus byte-level and structure-level mutation of well-formed messages, nesting/length bombs up to 7609 bytes, re-decode histories; outcome classified per input (return / unwind / abort / CPU limit) in a build with debug assertions, overflow checks and core UB-checks, a sample replayed under Miri (and ASan / valgrind memcheck in thorough); determinism by double decode from differently placed copies.",
-   design_ref="DESIGN.md §4 C04", level_note=_base_note + " Stack depth on embedded targets is observed, not judged.",
-   technique="runtime monitoring + sanitizers: outcome oracle under debug UB-checks/overflow checks, Miri, ASan, memcheck over exhaustive short inputs and mutation workloads"),
- "C05": dict(
-   level_text="Systematic single-fault injection: every well-formed seed (minimal, maximal, random subsets) for every command crossed with every fault of the statement's classes (required member removed, truncation at every offset, each key duplicated, every head non-minimal at every wider width, every container indefinite, every other CBOR type in place of each value, each bounded member one past its limit), the observed status compared with the class table; plus all unsupported command bytes.",
-   design_ref="DESIGN.md §4 C05", level_note=_base_note,
-   technique="runtime monitoring: systematic fault enumeration with a status-class oracle at the decode boundary"),
-}
+TEXT = {'C01': {'design_ref': 'DESIGN.md §4 C01',
+         'level_note': "Trusted base: the harness's independent model (harness/src/cbor.rs, schema.rs, resp.rs, reference layouts in the monitors) as a "
+                       'transcription of the specifications; rustc/cargo; the dependency versions pinned by the lock file. Held = no violation on the '
+                       'executions observed; inputs outside the enumerated domains and samples are not covered.',
+         'level_text': 'Reference-model monitor over generated executions: every well-formed request produced from the specification tables (all top-level '
+                       'optional subsets, all nested optional subsets one map at a time, boundary lattice + seeded random values, all 8 feature builds) is '
+                       "decoded by the real crate and its by-name projection must equal the model's normalisation. Exploration, not proof: values are a "
+                       'lattice plus samples.',
+         'technique': 'runtime monitoring: reference-model oracle at the public decode boundary over generated + enumerated workloads (debug UB-checks; Miri '
+                      'in thorough)'},
+ 'C02': {'design_ref': 'DESIGN.md §4 C02',
+         'level_note': "Trusted base: the harness's independent model (harness/src/cbor.rs, schema.rs, resp.rs, reference layouts in the monitors) as a "
+                       'transcription of the specifications; rustc/cargo; the dependency versions pinned by the lock file. Held = no violation on the '
+                       'executions observed; inputs outside the enumerated domains and samples are not covered.',
+         'level_text': 'Reference-model monitor on the encode side: responses are built through the public API next to their model value and the emitted bytes '
+                       "must equal status 0x00 + the model's canonical encoding (status byte alone when nothing is set); all 8 feature builds; subsets "
+                       'exhaustive up to 10 optional members, singletons/pairs/complements/full/random beyond.',
+         'technique': 'runtime monitoring: byte-exact reference-encoder oracle at the Response::serialize boundary'},
+ 'C03': {'design_ref': 'DESIGN.md §4 C03',
+         'level_note': "Trusted base: the harness's independent model (harness/src/cbor.rs, schema.rs, resp.rs, reference layouts in the monitors) as a "
+                       'transcription of the specifications; rustc/cargo; the dependency versions pinned by the lock file. Held = no violation on the '
+                       'executions observed; inputs outside the enumerated domains and samples are not covered.',
+         'level_text': 'Online checker of a format specification: everything the crate emits in the workload (response bodies, nested maps pairwise, '
+                       'authenticator-data extension tails, stand-alone serialisable types) is fed to a strict CTAP2-canonical parser that names the violated '
+                       "rule and offset; independent of C02's expected values.",
+         'technique': 'runtime monitoring: canonical-form validator over emitted bytes, pairwise member enumeration'},
+ 'C04': {'design_ref': 'DESIGN.md §4 C04',
+         'level_note': "Trusted base: the harness's independent model (harness/src/cbor.rs, schema.rs, resp.rs, reference layouts in the monitors) as a "
+                       'transcription of the specifications; rustc/cargo; the dependency versions pinned by the lock file. Held = no violation on the '
+                       'executions observed; inputs outside the enumerated domains and samples are not covered. Stack depth on embedded targets is observed, '
+                       'not judged.',
+         'level_text': 'Robustness monitor: exhaustive enumeration of all inputs of length <= 3 and of length 4 for the parameter-bearing commands, plus '
+                       'byte-level and structure-level mutation of well-formed messages, nesting/length bombs up to 7609 bytes, re-decode histories; outcome '
+                       'classified per input (return / unwind / abort / CPU limit) in a build with debug assertions, overflow checks and core UB-checks, a '
+                       'sample replayed under Miri (and ASan / valgrind memcheck in thorough); determinism by double decode from differently placed copies.',
+         'technique': 'runtime monitoring + sanitizers: outcome oracle under debug UB-checks/overflow checks, Miri, ASan, memcheck over exhaustive short '
+                      'inputs and mutation workloads'},
+ 'C05': {'design_ref': 'DESIGN.md §4 C05',
+         'level_note': "Trusted base: the harness's independent model (harness/src/cbor.rs, schema.rs, resp.rs, reference layouts in the monitors) as a "
+                       'transcription of the specifications; rustc/cargo; the dependency versions pinned by the lock file. Held = no violation on the '
+                       'executions observed; inputs outside the enumerated domains and samples are not covered.',
+         'level_text': 'Systematic single-fault injection: every well-formed seed (minimal, maximal, random subsets) for every command crossed with every '
+                       "fault of the statement's classes (required member removed, truncation at every offset, each key duplicated, every head non-minimal at "
+                       'every wider width, every container indefinite, every other CBOR type in place of each value, each bounded member one past its limit), '
+                       'the observed status compared with the class table; plus all unsupported command bytes.',
+         'technique': 'runtime monitoring: systematic fault enumeration with a status-class oracle at the decode boundary'},
+ 'C06': {'design_ref': 'DESIGN.md §4 C06',
+         'level_note': "Trusted base: the harness's independent model (harness/src/cbor.rs, schema.rs, resp.rs, reference layouts in the monitors) as a "
+                       'transcription of the specifications; rustc/cargo; the dependency versions pinned by the lock file. Held = no violation on the '
+                       'executions observed; inputs outside the enumerated domains and samples are not covered.',
+         'level_text': 'Differential monitor: the same request with and without unknown members (every position of every extensible host map, values over the '
+                       'full definite-length CBOR grammar incl. deep and message-sized ones) must decode to equal values, and the base must equal the model.',
+         'technique': 'runtime monitoring: differential oracle (with/without unknown member) plus reference model'},
+ 'C07': {'design_ref': 'DESIGN.md §4 C07',
+         'level_note': "Trusted base: the harness's independent model (harness/src/cbor.rs, schema.rs, resp.rs, reference layouts in the monitors) as a "
+                       'transcription of the specifications; rustc/cargo; the dependency versions pinned by the lock file. Held = no violation on the '
+                       'executions observed; inputs outside the enumerated domains and samples are not covered.',
+         'level_text': 'Reference-layout monitor for AuthenticatorData::serialize over a dense sweep of credential-id lengths across the capacity threshold, '
+                       'all flag combinations, counter boundaries, extension subsets, both flavours; byte-for-byte comparison and fit rule.',
+         'technique': 'runtime monitoring: reference byte-layout oracle and fit/overflow frontier'},
+ 'C08': {'design_ref': 'DESIGN.md §4 C08',
+         'level_note': "Trusted base: the harness's independent model (harness/src/cbor.rs, schema.rs, resp.rs, reference layouts in the monitors) as a "
+                       'transcription of the specifications; rustc/cargo; the dependency versions pinned by the lock file. Held = no violation on the '
+                       'executions observed; inputs outside the enumerated domains and samples are not covered.',
+         'level_text': 'Reference-decision monitor over the complete APDU header space (2^24 headers) and the fully crossed decision-relevant sub-space in all '
+                       'four length encodings and both entry points; decoded fields compared with reference slices.',
+         'technique': 'runtime monitoring: exhaustive header enumeration against a reference decision function'},
+ 'C09': {'design_ref': 'DESIGN.md §4 C09',
+         'level_note': "Trusted base: the harness's independent model (harness/src/cbor.rs, schema.rs, resp.rs, reference layouts in the monitors) as a "
+                       'transcription of the specifications; rustc/cargo; the dependency versions pinned by the lock file. Held = no violation on the '
+                       'executions observed; inputs outside the enumerated domains and samples are not covered.',
+         'level_text': 'Reference-layout monitor for ctap1::Response::serialize over all part lengths and a free-space sweep around every part boundary (by '
+                       'const-generic capacity and by pre-filled prefix), incl. append histories.',
+         'technique': 'runtime monitoring: reference layout + fit frontier + prefix-preservation invariant over capacity/prefix sweeps'},
+ 'C10': {'design_ref': 'DESIGN.md §4 C10',
+         'level_note': "Trusted base: the harness's independent model (harness/src/cbor.rs, schema.rs, resp.rs, reference layouts in the monitors) as a "
+                       'transcription of the specifications; rustc/cargo; the dependency versions pinned by the lock file. Held = no violation on the '
+                       'executions observed; inputs outside the enumerated domains and samples are not covered.',
+         'level_text': 'Call-log monitor: a recording mock authenticator observes which handler ran, with what argument, and the returned value is compared '
+                       'with the per-handler sentinel / programmed error; all variants x behaviours x entry points.',
+         'technique': 'runtime monitoring: recording mock + call-log checker (exactly-once, right handler, result propagation)'},
+ 'C11': {'design_ref': 'DESIGN.md §4 C11',
+         'level_note': "Trusted base: the harness's independent model (harness/src/cbor.rs, schema.rs, resp.rs, reference layouts in the monitors) as a "
+                       'transcription of the specifications; rustc/cargo; the dependency versions pinned by the lock file. Held = no violation on the '
+                       'executions observed; inputs outside the enumerated domains and samples are not covered.',
+         'level_text': 'Exhaustive table monitor over all 256 command bytes with many tails against the specification table; round trip and injectivity.',
+         'technique': 'runtime monitoring: exhaustive enumeration of the byte table against a specification table'},
+ 'C12': {'design_ref': 'DESIGN.md §4 C12',
+         'level_note': "Trusted base: the harness's independent model (harness/src/cbor.rs, schema.rs, resp.rs, reference layouts in the monitors) as a "
+                       'transcription of the specifications; rustc/cargo; the dependency versions pinned by the lock file. Held = no violation on the '
+                       'executions observed; inputs outside the enumerated domains and samples are not covered.',
+         'level_text': 'Boundary monitor: each bounded member probed on its lattice inside an otherwise valid message; accept/reject must match the '
+                       'specification limit and every accepted request must equal the model normalisation in full.',
+         'technique': 'runtime monitoring: boundary-lattice probing with accept/reject + value-preservation oracle'},
+ 'C13': {'design_ref': 'DESIGN.md §4 C13',
+         'level_note': "Trusted base: the harness's independent model (harness/src/cbor.rs, schema.rs, resp.rs, reference layouts in the monitors) as a "
+                       'transcription of the specifications; rustc/cargo; the dependency versions pinned by the lock file. Held = no violation on the '
+                       'executions observed; inputs outside the enumerated domains and samples are not covered.',
+         'level_text': 'Reference-truncation monitor (std char boundaries) over every character-width arrangement around the cut and all lengths 0..=300, '
+                       'icons of every length, ill-formed UTF-8 at every position; the unsafe char-boundary routine is additionally executed under debug '
+                       'UB-checks and Miri (ASan in thorough).',
+         'technique': 'runtime monitoring + sanitizers: reference truncation oracle, exhaustive width patterns, Miri/UB-checks on the unsafe routine'},
+ 'C14': {'design_ref': 'DESIGN.md §4 C14',
+         'level_note': "Trusted base: the harness's independent model (harness/src/cbor.rs, schema.rs, resp.rs, reference layouts in the monitors) as a "
+                       'transcription of the specifications; rustc/cargo; the dependency versions pinned by the lock file. Held = no violation on the '
+                       'executions observed; inputs outside the enumerated domains and samples are not covered.',
+         'level_text': 'Reference-filter monitor: exhaustive short lists over 4-letter alphabets and random long lists for both lossy list types in all three '
+                       'carriers.',
+         'technique': 'runtime monitoring: exhaustive short-list enumeration against reference filters'},
+ 'C15': {'design_ref': 'DESIGN.md §4 C15',
+         'level_note': "Trusted base: the harness's independent model (harness/src/cbor.rs, schema.rs, resp.rs, reference layouts in the monitors) as a "
+                       'transcription of the specifications; rustc/cargo; the dependency versions pinned by the lock file. Held = no violation on the '
+                       'executions observed; inputs outside the enumerated domains and samples are not covered.',
+         'level_text': 'Round-trip monitor (oracle-free equality) for every bidirectional type in both directions, canonical inputs from the model, all 8 '
+                       'feature builds.',
+         'technique': 'runtime monitoring: encode/decode round-trip equality in both directions'},
+ 'C16': {'design_ref': 'DESIGN.md §4 C16',
+         'level_note': "Trusted base: the harness's independent model (harness/src/cbor.rs, schema.rs, resp.rs, reference layouts in the monitors) as a "
+                       'transcription of the specifications; rustc/cargo; the dependency versions pinned by the lock file. Held = no violation on the '
+                       'executions observed; inputs outside the enumerated domains and samples are not covered.',
+         'level_text': 'Offline checker over recorded logs: each of the 9 feature builds records a transcript of the same common-member corpus; the driver '
+                       'compares them line by line; each line is also judged against the model.',
+         'technique': 'runtime monitoring: cross-build transcript comparison (offline log checker) + reference model'},
+ 'C17': {'design_ref': 'DESIGN.md §4 C17',
+         'level_note': "Trusted base: the harness's independent model (harness/src/cbor.rs, schema.rs, resp.rs, reference layouts in the monitors) as a "
+                       'transcription of the specifications; rustc/cargo; the dependency versions pinned by the lock file. Held = no violation on the '
+                       'executions observed; inputs outside the enumerated domains and samples are not covered.',
+         'level_text': 'Fit-frontier monitor: for each response and each capacity in a window around its exact size (capacities instantiated at compile time), '
+                       'the buffer must hold the whole message or exactly 0x7F, independent of the prior buffer content; re-used buffer histories.',
+         'technique': 'runtime monitoring: capacity sweep around the fit frontier with prefill independence and history checks'},
+ 'C18': {'design_ref': 'DESIGN.md §4 C18',
+         'level_note': "Trusted base: the harness's independent model (harness/src/cbor.rs, schema.rs, resp.rs, reference layouts in the monitors) as a "
+                       'transcription of the specifications; rustc/cargo; the dependency versions pinned by the lock file. Held = no violation on the '
+                       'executions observed; inputs outside the enumerated domains and samples are not covered.',
+         'level_text': 'Exhaustive table monitor for every identifier enumeration in both directions plus rejection of the edit-distance-1 neighbourhood of '
+                       'every spelling and of all unlisted numbers.',
+         'technique': 'runtime monitoring: exhaustive table enumeration + neighbourhood rejection'},
+ 'C19': {'design_ref': 'DESIGN.md §4 C19',
+         'level_note': "Trusted base: the harness's independent model (harness/src/cbor.rs, schema.rs, resp.rs, reference layouts in the monitors) as a "
+                       'transcription of the specifications; rustc/cargo; the dependency versions pinned by the lock file. Held = no violation on the '
+                       'executions observed; inputs outside the enumerated domains and samples are not covered.',
+         'level_text': 'Generator monitor: arbitrary-built requests from hostile byte strings are validated (UTF-8, capacity), formatted, cloned, compared and '
+                       'dispatched; run under debug UB-checks, a sample under Miri (ASan in thorough) because the generator contains from_utf8_unchecked and a '
+                       'pointer cast.',
+         'technique': 'runtime monitoring + sanitizers: validity oracle on generated values under debug UB-checks, Miri, ASan'}}
